@@ -5964,8 +5964,11 @@ class LazyContainer(dict):
             index = self._struct._subconsindexes[index] # KeyError
         if index in self._values:
             return self._values[index]
-        stream_seek(self._stream, self._offsets[index], 0, self._path) # KeyError
+        offset = self._offsets[index] # KeyError
+        fallback = stream_tell(self._stream, self._path)
+        stream_seek(self._stream, offset, 0, self._path)
         parseret = self._struct.subcons[index]._parsereport(self._stream, self._context, self._path)
+        stream_seek(self._stream, fallback, 0, self._path)
         self._values[index] = parseret
         return parseret
 
@@ -6095,8 +6098,11 @@ class LazyListContainer(list):
             return [self[i] for i in range(*index.indices(self._count))]
         if index in self._values:
             return self._values[index]
-        stream_seek(self._stream, self._offsets[index], 0, self._path) # KeyError
+        offset = self._offsets[index] # KeyError
+        fallback = stream_tell(self._stream, self._path)
+        stream_seek(self._stream, offset, 0, self._path)
         parseret = self._subcon._parsereport(self._stream, self._context, self._path)
+        stream_seek(self._stream, fallback, 0, self._path)
         self._values[index] = parseret
         return parseret
 
